@@ -1,4 +1,10 @@
 
+(** val negb : bool -> bool **)
+
+let negb = function
+| true -> false
+| false -> true
+
 type nat =
 | O
 | S of nat
@@ -39,6 +45,12 @@ module Coq__1 = struct
    | S p -> S (add p m)
 end
 include Coq__1
+
+(** val concat : 'a1 list list -> 'a1 list **)
+
+let rec concat = function
+| [] -> []
+| x :: l0 -> app x (concat l0)
 
 (** val map : ('a1 -> 'a2) -> 'a1 list -> 'a2 list **)
 
@@ -345,6 +357,13 @@ module N =
     | Gt -> false
     | _ -> true
 
+  (** val min : n -> n -> n **)
+
+  let min n0 n' =
+    match compare n0 n' with
+    | Gt -> n'
+    | _ -> n0
+
   (** val pos_div_eucl : positive -> n -> n * n **)
 
   let rec pos_div_eucl a b =
@@ -588,13 +607,6 @@ let cmd_eqb a b =
                        | ServerSettings -> true
                        | _ -> false)
 
-(** val missing_N : n **)
-
-let missing_N =
-  Npos (XI (XI (XI (XI (XI (XI (XI (XI (XI (XO (XO (XI (XO (XO (XI (XI (XO
-    (XI (XO (XI (XI (XO (XO (XI (XI (XI (XO (XI (XI
-    XH)))))))))))))))))))))))))))))
-
 (** val cmd_disc : (n * cmd) list **)
 
 let cmd_disc =
@@ -623,7 +635,8 @@ let cmd_default =
 (** val encode_max_payload : n **)
 
 let encode_max_payload =
-  missing_N
+  Npos (XI (XI (XI (XI (XI (XI (XI (XI (XI (XI (XI (XI (XI (XI (XI
+    XH)))))))))))))))
 
 (** val assoc_N : n -> (n * 'a1) list -> 'a1 option **)
 
@@ -739,3 +752,103 @@ let rec feed_all carry = function
 | c :: cs ->
   let (fs, carry') = feed carry c in
   let (gs, carry'') = feed_all carry' cs in ((app fs gs), carry'')
+
+type rd = { rq : bytes list; rclosed : bool; rbuf : bytes; reof : bool }
+
+type rres =
+| RData of bytes
+| REof
+| RPending
+
+(** val rd_init : rd **)
+
+let rd_init =
+  { rq = []; rclosed = false; rbuf = []; reof = false }
+
+(** val is_nil : 'a1 list -> bool **)
+
+let is_nil = function
+| [] -> true
+| _ :: _ -> false
+
+(** val rd_push : rd -> bytes -> rd **)
+
+let rd_push st c =
+  { rq = (app st.rq (c :: [])); rclosed = st.rclosed; rbuf = st.rbuf; reof =
+    st.reof }
+
+(** val rd_close : rd -> rd **)
+
+let rd_close st =
+  { rq = st.rq; rclosed = true; rbuf = st.rbuf; reof = st.reof }
+
+(** val pop_nonempty : bytes list -> (bytes * bytes list) option **)
+
+let rec pop_nonempty = function
+| [] -> None
+| c :: q' -> if is_nil c then pop_nonempty q' else Some (c, q')
+
+(** val rd_read : rd -> n -> rd * rres **)
+
+let rd_read st cap =
+  if (&&) st.reof (is_nil st.rbuf)
+  then (st, REof)
+  else if negb (is_nil st.rbuf)
+       then let n0 = N.min (lenN st.rbuf) cap in
+            ({ rq = st.rq; rclosed = st.rclosed; rbuf = (dropN n0 st.rbuf);
+            reof = st.reof }, (RData (takeN n0 st.rbuf)))
+       else (match pop_nonempty st.rq with
+             | Some p ->
+               let (c, q') = p in
+               let n0 = N.min (lenN c) cap in
+               ({ rq = q'; rclosed = st.rclosed; rbuf = (dropN n0 c); reof =
+               st.reof }, (RData (takeN n0 c)))
+             | None ->
+               if st.rclosed
+               then ({ rq = []; rclosed = true; rbuf = []; reof = true },
+                      REof)
+               else ({ rq = []; rclosed = false; rbuf = []; reof = st.reof },
+                      RPending))
+
+type xres =
+| XOk of bytes
+| XEof
+| XPending
+
+(** val rd_read_exact_fuel : nat -> rd -> n -> bytes -> rd * xres **)
+
+let rec rd_read_exact_fuel fuel st need acc =
+  if N.eqb need N0
+  then (st, (XOk acc))
+  else (match fuel with
+        | O -> (st, XPending)
+        | S k ->
+          let (st', r) = rd_read st need in
+          (match r with
+           | RData b ->
+             rd_read_exact_fuel k st' (N.sub need (lenN b)) (app acc b)
+           | REof -> (st', XEof)
+           | RPending -> (st', XPending)))
+
+(** val rd_read_exact : rd -> n -> rd * xres **)
+
+let rd_read_exact st n0 =
+  rd_read_exact_fuel (add (S (N.to_nat n0)) (length st.rq)) st n0 []
+
+(** val rd_pending_bytes : rd -> bytes **)
+
+let rd_pending_bytes st =
+  app st.rbuf (concat st.rq)
+
+(** val rd_read_script : rd -> n list -> (rd * bytes) * bool **)
+
+let rec rd_read_script st = function
+| [] -> ((st, []), false)
+| c :: cs ->
+  let (st', r) = rd_read st c in
+  (match r with
+   | RData b ->
+     let (p, e) = rd_read_script st' cs in
+     let (st'', got) = p in ((st'', (app b got)), e)
+   | REof -> ((st', []), true)
+   | RPending -> ((st', []), false))
